@@ -188,10 +188,11 @@ def run(chk):
     d2(chk, prog)
     chk.clause("D3", "the padded targets may overlap or nest: subtract()'s precondition is established (C06-D1 rule)")
     C06.d1(chk, prog)
+    C06.d1b(chk, prog)          # the subtraction itself on literal tables (targets missing from a contig leave its accessible regions whole)
     C06.d3b(chk, prog)           # ... and merge() itself leaves nothing unmerged on its fast path / groups by the stated predicate (C06-D3, D3b)
     C06.d3(chk, prog)
     chk.clause("D4", "size filter (span >= minimum) and chaining of the pieces (C06-D5 rule)")
-    C06.d5(chk, prog, [(1000, 300, 0), (100, 300, 0), (449, 300, 0), (450, 300, 0), (751, 300, 0), (1798, Fr(800, 3), 0), (299, 300, 300), (300, 300, 300), (9373, 150000, 9374), (9374, 150000, 9374),
+    C06.d5(chk, prog, [(1000, 300, 0), (100, 300, 0), (449, 300, 0), (450, 300, 0), (751, 300, 0), (1798, Fr(800, 3), 0), (299, 300, 300), (300, 300, 300), (9373, 150000, 9374), (9374, 150000, 9374), (250, 100, 0), (350, 100, 0), (450, 100, 0),
                        (975001, 150000, 9374), (7, 2, 0)])
     d5(chk, prog)
 
